@@ -5,5 +5,13 @@ PROP = "C02"
 THEOREMS = ["C02_complete_exactly_once", "C02_complete_whole_step", "C02_each_connection_once", "C02_router_wellformed"]
 
 
+import serverlib as sl
+
+
+def acl_gen(r, thorough):
+    return sl.acl_histories(r, thorough, types=("read",))
+
+
 def run(tier, replay=None):
-    return srvprops.run(PROP, THEOREMS, tier, replay)
+    return srvprops.run(PROP, THEOREMS, tier, replay, extra_gen=acl_gen,
+                        rule_note="plus directed ACL histories (multi-domain allow-lists edited by add/remove batches, then probed by broadcasts)")
